@@ -34,6 +34,7 @@ type frame struct {
 	panicVal  any
 	depth     int
 	specBlock *ssa.BasicBlock
+	stackLen  int
 }
 
 // goPanicVal is a Go-level panic travelling up the interpreter stack.
@@ -68,6 +69,7 @@ type Exec struct {
 	noSpec    bool
 	specDepth int
 	modes     map[string]bool
+	stack     []string
 }
 
 func (ex *Exec) logUndo(f func()) {
@@ -133,6 +135,14 @@ func (ex *Exec) goPanic(msg string) {
 
 func (ex *Exec) unsupported(format string, args ...any) {
 	msg := fmt.Sprintf(format, args...)
+	if os.Getenv("GOSYM_STACK") != "" {
+		n := len(ex.stack)
+		from := n - 8
+		if from < 0 {
+			from = 0
+		}
+		msg += " @ " + strings.Join(ex.stack[from:], " > ")
+	}
 	panic(engineError{"unsupported: " + msg})
 }
 
@@ -221,7 +231,8 @@ func (ex *Exec) callFunction(caller *frame, fn *ssa.Function, args []Value, env 
 	if ex.traceOn {
 		ex.callTrace = append(ex.callTrace, strings.Repeat(" ", depth)+fn.String())
 	}
-	fr := &frame{ex: ex, caller: caller, fn: fn, depth: depth}
+	ex.stack = append(ex.stack, fn.String())
+	fr := &frame{ex: ex, caller: caller, fn: fn, depth: depth, stackLen: len(ex.stack)}
 	fr.env = make(map[ssa.Value]Value, 16)
 	fr.block = fn.Blocks[0]
 	for i, p := range fn.Params {
@@ -233,6 +244,7 @@ func (ex *Exec) callFunction(caller *frame, fn *ssa.Function, args []Value, env 
 	for fr.block != nil {
 		ex.runFrame(fr)
 	}
+	ex.stack = ex.stack[:fr.stackLen-1]
 	return fr.result
 }
 
@@ -248,6 +260,7 @@ func (ex *Exec) runFrame(fr *frame) {
 		}
 		fr.panicking = true
 		fr.panicVal = gp
+		ex.stack = ex.stack[:fr.stackLen]
 		ex.runDefers(fr)
 		fr.block = fr.fn.Recover
 		if fr.block == nil {
@@ -1139,6 +1152,7 @@ type pathResult struct {
 
 func (ex *Exec) runPath(h *ssa.Function) (res pathResult) {
 	ex.steps = 0
+	ex.stack = ex.stack[:0]
 	defer func() {
 		r := recover()
 		switch e := r.(type) {
@@ -1148,7 +1162,16 @@ func (ex *Exec) runPath(h *ssa.Function) (res pathResult) {
 		case goPanicVal:
 			res = pathResult{"panic", e.msg}
 		case engineError:
-			res = pathResult{"unsupported", e.msg}
+			msg := e.msg
+			if os.Getenv("GOSYM_STACK") != "" && !strings.Contains(msg, " @ ") {
+				n := len(ex.stack)
+				from := n - 8
+				if from < 0 {
+					from = 0
+				}
+				msg += " @ " + strings.Join(ex.stack[from:], " > ")
+			}
+			res = pathResult{"unsupported", msg}
 		default:
 			res = pathResult{"engine-bug", fmt.Sprintf("%v\n%s", r, debug.Stack())}
 		}
